@@ -1,6 +1,7 @@
 package exec
 
 import (
+	"errors"
 	"math"
 	"strconv"
 
@@ -21,6 +22,11 @@ func init() {
 func execNumber(context *exprContext, expr *grammar.Grammar) error {
 	numStr := expr.GetString()
 	numResult, err := strconv.ParseFloat(numStr, 64)
+
+	// A numeral beyond the range of a double is rounded to an infinity.
+	if errors.Is(err, strconv.ErrRange) {
+		err = nil
+	}
 
 	context.result = Number(numResult)
 	return err
